@@ -401,6 +401,12 @@ def h_iter(ctx, fr, args, kw):
 def h_next(ctx, fr, args, kw):
     o = ops()
     it = args[0]
+    from vf.e1.vals import SGen
+    if isinstance(it, SGen):
+        # next() on a generator object: keep one iterator per generator
+        if not hasattr(it, "_iter"):
+            it._iter = PyIter(compact(it.sl))
+        it = it._iter
     if isinstance(it, SList):
         it = PyIter(compact(it))
     if not isinstance(it, PyIter):
@@ -509,7 +515,51 @@ def h_print(ctx, fr, args, kw):
 
 
 def h_sorted(ctx, fr, args, kw):
-    raise Unsupported("sorted()")
+    return seq_sorted(ctx, fr, ops().as_slist(ctx, fr, args[0]), kw.get("key"), kw.get("reverse", False))
+
+
+def seq_sorted(ctx, fr, sl, key, reverse):
+    """stable sort of a bounded list by integer keys (python semantics: reverse=True keeps the original order
+    of equal keys).  Encoded as a rank computation: new position of element i = number of elements that sort
+    strictly before it."""
+    from vf.e1.vals import merge, raw_int
+    d = compact(sl)
+    if not isinstance(reverse, bool):
+        raise Unsupported("sort with a symbolic reverse flag")
+    keys = []
+    g0 = fr.g
+    for k in range(d.cap):
+        fr.g = AND(g0, LT(k, d.len))
+        if live(ctx, fr) is False:
+            keys.append(0)
+        else:
+            kv = call(ctx, fr, key, [d.el[k]], {}) if key is not None else d.el[k]
+            if isinstance(kv, bool) or not isinstance(kv, (int, SInt)):
+                fr.g = g0
+                raise Unsupported("sort key of type %s" % type(kv).__name__)
+            keys.append(raw_int(kv))
+        fr.g = g0
+    rank = []
+    for i in range(d.cap):
+        r = 0
+        for j in range(d.cap):
+            if i == j:
+                continue
+            first = (GT(keys[j], keys[i]) if reverse else LT(keys[j], keys[i]))
+            if j < i:
+                first = OR(first, EQ(keys[j], keys[i]))
+            r = ADD(r, ITE(AND(LT(j, d.len), first), 1, 0))
+        rank.append(r)
+    el = []
+    for pos in range(d.cap):
+        v = None
+        for i in reversed(range(d.cap)):
+            cond = AND(LT(i, d.len), EQ(rank[i], pos))
+            if cond is False:
+                continue
+            v = d.el[i] if v is None else merge(cond, d.el[i], v)
+        el.append(v if v is not None else d.el[pos])
+    return SList(d.len, el)
 
 
 def h_id(ctx, fr, args, kw):
@@ -866,6 +916,9 @@ def slist_method(ctx, fr, sl, name, args, kw):
         return None
     if name == "reverse":
         o.commit(ctx, fr, sl, o.seq_reversed(ctx, fr, sl))
+        return None
+    if name == "sort" and not sl.is_set:
+        o.commit(ctx, fr, sl, seq_sorted(ctx, fr, sl, kw.get("key"), kw.get("reverse", False)))
         return None
     if name == "__reversed__":
         return o.seq_reversed(ctx, fr, sl)
